@@ -366,7 +366,17 @@ class ParseJudge(ProgramJudge):
         return r2, imp, mod
 
 
+class ConstJudge(Judge):
+    """Streams whose model reply is fixed (the implementation must report the expected token)."""
+
+    def decide(self, run, harness, req, impl, model):
+        return f"{req[:200]}: implementation reports {impl[:400]}"
+
+    shrink = None
+
+
 JUDGES = {
+    "const": ConstJudge(),
     "cell": DataJudge(2, "cell", spec=cell_spec),
     "mem": DataJudge(2, "mem"),
     "sv": DataJudge(2, "sv"),
